@@ -51,7 +51,7 @@ int ascon_trng_init(ascon_trng_state_t *state)
 {
     memset(state, 0, sizeof(*state));
     g_tape.inits++;
-    return 1;
+    return g_tape.unhealthy ? 0 : 1;
 }
 void ascon_trng_free(ascon_trng_state_t *state)
 {
@@ -60,4 +60,4 @@ void ascon_trng_free(ascon_trng_state_t *state)
 }
 uint32_t ascon_trng_generate_32(ascon_trng_state_t *state) { (void)state; return (uint32_t)next64(); }
 uint64_t ascon_trng_generate_64(ascon_trng_state_t *state) { (void)state; return next64(); }
-int ascon_trng_reseed(ascon_trng_state_t *state) { (void)state; g_tape.reseeds++; return 1; }
+int ascon_trng_reseed(ascon_trng_state_t *state) { (void)state; g_tape.reseeds++; return g_tape.unhealthy ? 0 : 1; }
